@@ -122,6 +122,15 @@ pub fn encode_with_len(kind: Kind, tokens: &[Token], declared: usize) -> Vec<u8>
     out
 }
 
+/// LZ11 stream in the extended-header form (zero 24-bit length, then a 32-bit length)
+pub fn encode_extended(tokens: &[Token], declared: u32) -> Vec<u8> {
+    let body = encode_with_len(Kind::Lz11, tokens, 0);
+    let mut out = vec![0x11, 0, 0, 0];
+    out.extend_from_slice(&declared.to_le_bytes());
+    out.extend_from_slice(&body[4..]);
+    out
+}
+
 pub fn encode(kind: Kind, tokens: &[Token]) -> Vec<u8> {
     let n = expand(tokens).map(|v| v.len()).unwrap_or(0);
     encode_with_len(kind, tokens, n)
@@ -132,7 +141,7 @@ pub enum Malformed {
     /// fewer than 4 bytes (includes the empty input)
     ShorterThanHeader,
     BadType(u8),
-    /// LZ11 header with a zero 24-bit length: the extended-length escape (not a plain stream)
+    /// LZ11 extended-length header declaring more than EXTENDED_LIMIT bytes: not examined further
     ExtendedHeader,
     /// input ended before `declared` bytes were produced
     Truncated { produced: usize, declared: usize },
@@ -143,6 +152,9 @@ pub enum Malformed {
     /// bytes left over after the declared length was produced
     Trailing { consumed: usize, total: usize },
 }
+
+/// extended-header streams declaring more than this are not walked by the reference reader (no claim is made)
+pub const EXTENDED_LIMIT: usize = 1 << 26;
 
 #[derive(Clone, Debug)]
 pub struct Parsed {
@@ -161,11 +173,19 @@ pub fn parse(kind: Kind, bytes: &[u8]) -> Result<Parsed, Malformed> {
     if bytes[0] != kind.type_byte() {
         return Err(Malformed::BadType(bytes[0]));
     }
-    let declared = bytes[1] as usize | (bytes[2] as usize) << 8 | (bytes[3] as usize) << 16;
-    if declared == 0 && kind == Kind::Lz11 {
-        return Err(Malformed::ExtendedHeader);
-    }
+    let mut declared = bytes[1] as usize | (bytes[2] as usize) << 8 | (bytes[3] as usize) << 16;
     let mut pos = 4usize;
+    if declared == 0 && kind == Kind::Lz11 {
+        // extended-length form of the 0x11 header: a zero 24-bit length is followed by a 32-bit length
+        if bytes.len() < 8 {
+            return Err(Malformed::ShorterThanHeader);
+        }
+        declared = u32::from_le_bytes([bytes[4], bytes[5], bytes[6], bytes[7]]) as usize;
+        pos = 8;
+        if declared > EXTENDED_LIMIT {
+            return Err(Malformed::ExtendedHeader);
+        }
+    }
     let mut produced = 0usize;
     let mut tokens = Vec::new();
     let mut groups = 0;
